@@ -43,6 +43,17 @@ Definition check_rmsd (n : nat) (m : list (list Qc)) (tol : Qc) (e : expect) : b
 (* prune_on_rmsd called with a tolerance ARGUMENT (None / float / other number / Distance with unit factor) *)
 Definition check_rmsd_arg (n : nat) (m : list (list Qc)) (default : Qc) (t : tol_arg) (e : expect) : bool :=
   res_matches (prune_on_rmsd_arg tc (dmat m) default t (confs_n n)) e.
+(* sets in which the SAME conformer object sits at several positions: ids = the object at each position; energies
+   and the RMSD matrix are per object; the expectation is the sequence of objects left *)
+Definition confs_ids (ids : list nat) (ens : list (option Qc)) : list tc :=
+  map (fun i => mkTc i (nth i ens None) true (nth i ens None)) ids.
+Definition check_rmsd_ids (ids : list nat) (m : list (list Qc)) (tol : Qc) (e : expect) : bool :=
+  res_matches (prune_on_rmsd tc (dmat m) tol (confs_ids ids [])) e.
+Definition check_energy_ids (ids : list nat) (ens : list (option Qc)) (e_tol n_sigma : Qc) (e : expect) : bool :=
+  res_matches (prune_on_energy tc t_en e_tol n_sigma (confs_ids ids ens)) e.
+Definition check_prune_ids (ids : list nat) (ens : list (option Qc)) (m : list (list Qc)) (e_tol n_sigma r_tol : Qc)
+                           (rm : bool) (e : expect) : bool :=
+  res_matches (prune tc t_en e_tol n_sigma (dmat m) r_tol rm (confs_ids ids ens)) e.
 Definition check_remove_no_energy (ens : list (option Qc)) (e : expect) : bool :=
   res_matches (remove_no_energy tc t_en (confs ens [])) e.
 Definition check_diff_graph (isos : list bool) (e : expect) : bool :=
